@@ -400,10 +400,11 @@ def block_term(b, ctx):
                 mutable = "Mut" in p.get("mode", "").split(",")[-1] if False else p.get("mode", "").endswith("Mut)")
                 t = term(init, ctx)
                 reads_mut = False
-                if _reads_mutable(t):
+                if init is not None:
+                    # (also state reached through a `&mut` parameter: `let at_i = self.expr.peek() == Some(&'i'); self.expr.next(); .. at_i ..`)
                     ids = _var_ids(init)
                     rest = b["stmts"][b["stmts"].index(s) + 1:] + ([b["tail"]] if b.get("tail") else [])
-                    reads_mut = _mutated_in(rest, ids)
+                    reads_mut = bool(ids) and _mutated_in(rest, ids)
                 if mutable or not ctx.inline_pure or reads_mut:
                     name = ctx.fresh("m" if mutable else "v")
                     ctx.env[p["id"]] = ("var", name)
@@ -694,6 +695,14 @@ def normalise(t):
         return t[2] if t[1][1] == "true" else t[3]
     if h == "errmsg":
         return ("errmsg",)
+    if h == "op" and len(t) == 5 and _is(t[3], "seq") and len(t[3]) > 2 and t[1] not in ("and", "or"):
+        # { a; b; v } op y  ==  a; b; (v op y)       (the left operand is evaluated first in any case)
+        return normalise(t[3][:-1] + (("op", t[1], t[2], t[3][-1], t[4]),))
+    if h == "call" and len(t) == 3 and t[1] == "Iterator::collect::<String>" and _is(t[2], "call") and len(t[2]) == 3 and t[2][1] == "<Option<char> as iter::IntoIterator>::into_iter":
+        # opt.into_iter().collect::<String>()  ==  opt.map(|c| c.to_string()).unwrap_or_default()     (one character or the empty string)
+        _FOLD_CTR[0] += 1
+        c = "b%d" % _FOLD_CTR[0]
+        return ("call", "Option::unwrap_or_default", ("mapopt", t[2][2], ("bind", c), ("call", "<char as std::string::ToString>::to_string", ("var", c))))
     if h == "call" and isinstance(t[1], str) and t[1].endswith("iter::Extend>::extend") and len(t) == 4 and _is(t[3], "call") and t[3][1] == "iter::from_fn" and len(t[3]) == 3 \
             and _is(t[3][2], "lambda") and not t[3][2][1] and t[1].startswith("<String"):
         # buf.extend(from_fn(|| next()))   ==   loop { if let Some(c) = next() { buf.push(c) } else { break } }
@@ -851,6 +860,25 @@ def normalise(t):
             else:
                 flat.append(x)
         items = _strip_unit_tail(flat)
+        # a `()` statement (what a compiled-out `debug_assert!` leaves behind) does nothing
+        items = [x for x in items[:-1] if x != ("unit",)] + list(items[-1:])
+        # let v = C; ..if v {a}..; ..if v {b} else {c}..   ==   if C { ..a..b.. } else { ....c.. }      (v immutable, used only as a condition, twice or more:
+        # a boolean decided once and branched on later -- the case split is exact because C is evaluated once, first, either way)
+        for i, x in enumerate(items):
+            if _is(x, "let") and len(x) == 3 and isinstance(x[1], str) and re.match(r"^v\d+$", x[1]) and i + 1 < len(items):
+                vv = ("var", x[1])
+                rest = ("seq",) + tuple(items[i + 1:])
+                n_all = sum(1 for y in _subterms(rest) if y == vv)
+                n_cond = sum(1 for y in _subterms(rest) if _is(y, "if") and len(y) == 4 and (y[1] == vv or y[1] == ("un", "not", "bool", vv)))
+                if n_all >= 2 and n_all == n_cond and term_size(rest) <= 400:
+                    def sb(z, val):
+                        if isinstance(z, tuple):
+                            if z == vv:
+                                return ("lit", val, "bool")
+                            return tuple(sb(w, val) for w in z)
+                        return z
+                    split = ("if", x[2], sb(rest, "true"), sb(rest, "false"))
+                    return normalise(("seq",) + tuple(items[:i]) + (split,)) if i else normalise(split)
         # let (a, b) = (x, y)   ==  let a = x; let b = y
         flat1 = []
         for x in items:
